@@ -46,6 +46,92 @@ PROPS["C13"] = dict(
     assumptions=["log indices handed to Update are strictly increasing (Raft)"],
 )
 
+_FSM_TRUSTED = ["Model/Cmd.v + Model/Fsm.v hand-written model of storage/table/fsm (command*.go, fsm.go Update/Lookup, iter.go, query.go); Pebble (DB, indexed batch, bounded iterators, SeekPrefixGE with Split=len, range tombstones, atomic batch commit) modelled as a sorted association list",
+                "Model/ProtoSize.v model of vtprotobuf SizeVT for KeyValue/ResponseOp_Range"]
+
+PROPS["C01"] = dict(
+    title="A table behaves as an ordered byte-string map for every command history",
+    design_ref="DESIGN.md section 7 (C01)",
+    run_files=["Run/FsmRun.v"],
+    engines=[dict(cmd=["c01"], corr="Model.Fsm.{Update,f_lookup,f_iterator_lookup,local_index,leader_index} <-> fsm.FSM.Update/Lookup")],
+    level_text="Refinement theorem for all scenarios (any interleaving of apply batches, reads, iterator reads, read-only transactions, index reads, reopen): the implementation-level model over the encoded Pebble key space produces exactly the outputs of a plain sorted map applying the commands one after another, and its bookkeeping is invisible; the model is compared with the real fsm.FSM (Pebble on MemFS) on random histories, and the specification itself is evaluated on the implementation's outputs.",
+    level_note="Trusts: Coq kernel; genconst; Pebble-as-sorted-map abstraction (validated by every correspondence case, not proved); correspondence run; range deletes with prev_kv over >= 4MiB-1KiB of data are outside the statement (known finding).",
+    technique="Coq proof (parametricity of the command handlers in the store + representation invariant, induction over scenarios) + differential correspondence check against fsm.FSM on Pebble/MemFS",
+    trusted=_FSM_TRUSTED,
+    assumptions=["apply batches are non-empty and indices < 2^64 (dragonboat)", "Pebble behaves as a sorted map with atomic batch commit"],
+)
+
+def fsm_label(diffs, descr):
+    """semantic label of a difference between the specification and the implementation's outputs of an fsm scenario"""
+    kinds = [x.strip().split(" ")[0].split("[")[0] for x in descr.split(" ; ")]
+    labs = set()
+    for d in diffs:
+        path = [p for p in d.split(":")[0].strip("/").split("/") if p != ""]
+        if not path:
+            labs.add("outputs")
+            continue
+        try:
+            k = kinds[int(path[0])]
+        except Exception:
+            k = "?"
+        if k.startswith("apply"):
+            if len(path) >= 2 and path[1] == "1":
+                labs.add("index announced to waiters after an apply call")
+            elif len(path) >= 4 and path[3] in ("1", "2"):
+                labs.add("revision/result data of an applied entry")
+            elif len(path) >= 4 and path[3] == "0":
+                labs.add("result value of an applied entry")
+            else:
+                labs.add("command responses")
+        elif k in ("read", "iter"):
+            tail = path[-1] if k == "read" else (path[2] if len(path) > 2 else "")
+            labs.add({"1": "'more' flag of a range read", "2": "count of a range read"}.get(tail, "pairs returned by a range read"))
+        elif k == "txn-ro":
+            labs.add("read-only transaction answer")
+        elif k in ("index", "reopen"):
+            labs.add("applied index" if path[-1] == "0" else "leader index")
+        else:
+            labs.add("outputs")
+    return "; ".join(sorted(labs))
+
+PROPS["C01"]["label"] = fsm_label
+
+PROPS["C02"] = dict(
+    title="Transactions are atomic if/then/else: one branch, in order, all or nothing",
+    design_ref="DESIGN.md section 7 (C02)",
+    run_files=["Run/FsmRun.v"],
+    engines=[dict(cmd=["c02"], corr="Model.Cmd.{handle_txn,txn_compare,txn_ops,lookup_txn} via Model.Fsm.Update/f_lookup_txn <-> fsm.handleTxn, txnCompare, handleTxnOps, FSM.Lookup(TxnRequest)")],
+    level_text="Theorems for all predicate and operation lists: branch selection by the conjunction of predicates on the pre-state (declarative semantics of single-key and range predicates), in-order execution with one response per operation, read-only transactions equal the read-only path and leave the state unchanged, and the encoded-store transaction equals the plain-map transaction at any position of any scenario; compared with the real FSM on transaction-heavy histories.",
+    level_note="Trusts: Coq kernel; Pebble indexed batch/snapshot modelled as a working copy of the sorted map; correspondence run. Crash atomicity of the single commit is C04's.",
+    technique="Coq proof (parametricity of handlers in the store, induction over operation lists) + differential correspondence check against fsm.FSM",
+    trusted=_FSM_TRUSTED, label=fsm_label,
+    assumptions=["requests in wire-normal form (the harness feeds what one marshal/unmarshal yields)"],
+)
+
+PROPS["C03"] = dict(
+    title="Replicas converge: state depends only on the log, not on how it is batched",
+    design_ref="DESIGN.md section 7 (C03)",
+    run_files=["Run/FsmRun.v"],
+    engines=[dict(cmd=["c03"], corr="Model.Fsm.Update over partitions <-> fsm.FSM.Update/Open/Close/PrepareSnapshot/SaveSnapshot/RecoverFromSnapshot")],
+    level_text="Theorem for every log and every partition into non-empty apply batches: store (content and both bookkeeping values) and per-entry results are functions of the concatenated log; two partitions of one log give equal replicas. The same log is applied to two real FSMs under two random partitions with reopen and snapshot transfer (both formats and across) at cut points and compared entry by entry; both runs are also compared with the model.",
+    level_note="Trusts: Coq kernel; reopen and snapshot save/recover are the identity on the store in the model (the correspondence run is what checks the implementation does the same); Pebble-as-sorted-map.",
+    technique="Coq proof (Update as a fold refining spec_entries, compositionality over list append) + differential correspondence check on two real FSM instances",
+    trusted=_FSM_TRUSTED, label=fsm_label,
+    assumptions=["apply batches are non-empty (dragonboat)"],
+)
+
+PROPS["C09"] = dict(
+    title="Range reads are sorted, bounded, truthful about 'more', and page losslessly",
+    design_ref="DESIGN.md section 7 (C09)",
+    run_files=["Run/FsmRun.v"],
+    engines=[dict(cmd=["c09"], corr="Model.Cmd.iterate/lookup/iterator_lookup <-> fsm.iterate, rangeLookup, singleLookup, iteratorLookup")],
+    level_text="Theorems for all pair lists, limits and modes, generic in the pair representation: lossless paging, exact counts, 'more' exactly when pairs remain, variants agree, message size bounded by threshold + largest pair + 48 (below the 4 MiB transport limit for the code's constants, re-checked from regenerated constants); exhaustive (table size x limit x mode x bounds) grid and megabyte size-cut layouts on the real FSM compared with the model, plus Go-side oracles of each clause.",
+    level_note="Trusts: Coq kernel; genconst (maxRangeSize, MaxValueLen, key length, transport limit); ProtoSize model of SizeVT (compared through the cut positions on megabyte tables); correspondence run.",
+    technique="Coq proof (induction over the chunking loop with accumulators, arithmetic on varint sizes) + exhaustive-grid differential correspondence check against fsm.FSM",
+    trusted=_FSM_TRUSTED, label=fsm_label,
+    assumptions=["stored pairs respect the API size limits for the transport-limit corollary"],
+)
+
 # Properties not (yet) claimed, each with a reason; kept current as checks are added.
 _PENDING = "check not built yet in this development; will be claimed once its model, theorems and correspondence harness exist"
 NOT_APPLICABLE = [dict(property_id="C%02d" % i, reason=_PENDING) for i in range(1, 20) if "C%02d" % i not in PROPS]
